@@ -14,11 +14,23 @@
  *      -> "rc=<0|1> <rows> <cols> | target, row major, over the padded extent lmt*mb x lnt*nb"
  *  gs index start end mb size dis          -> getsize(...)
  *  nc R PY kqY PT kqT sc                   -> redistribute_pair_num_cols of two block-cyclic descriptors
+ *  upd mY nY  mYs mYe nYs nYe  i0 j0  TLr TLc BRr BRc  mbY nbY  offr offc  same
+ *      one call of CORE_redistribute_update (static in the C generated from redistribute.jdf, which is
+ *      included below) on a 64x64 target tile filled with -1; same=1: the source tile itself is passed
+ *      (32x32, value (i+1)*100+j), same=0: a packed buffer (value = linear index)
+ *      -> the written entries "i,j=v" in row-major order
  */
-#include "parsec/parsec_config.h"
-#include "parsec.h"
+/* the C file that parsec-ptgpp generated from redistribute.jdf (build directory), for its static
+ * CORE_redistribute_update; its three global symbols are renamed so that libparsec's own copy runs
+ * the 'run' cases.  It includes redistribute_internal.h (getsize, redistribute_pair_num_cols). */
+#define parsec_redistribute_new h21_unused_redistribute_new
+#define __parsec_redistribute_internal_constructor h21_unused_constructor
+#define __parsec_redistribute_internal_taskpool_t_class h21_unused_class
+#include "parsec/data_dist/matrix/redistribute/redistribute.c"
+#undef parsec_redistribute_new
+#undef __parsec_redistribute_internal_constructor
+#undef __parsec_redistribute_internal_taskpool_t_class
 #include "parsec/data_internal.h"
-#include "parsec/data_dist/matrix/redistribute/redistribute_internal.h"
 #include "hcommon.h"
 #include <mpi.h>
 #include <unistd.h>
@@ -104,14 +116,37 @@ int main(int argc, char **argv) {
         } else if (!strncmp(l, "gs ", 3) && k == 6) {
             if (!me) { fprintf(out, "%d\n", getsize(v[0], v[1], v[2], v[3], v[4], v[5])); fflush(out); }
         } else if (!strncmp(l, "nc ", 3) && k == 6) {
-            /* descriptors of an R-rank job, impersonating rank 0; no memory is attached */
+            /* descriptors of an R-rank job, impersonating rank 0; no memory is attached
+             * (descriptor initialisation needs an initialised runtime) */
             parsec_matrix_block_cyclic_t a, b;
             int R = v[0];
             if (R < 1 || v[1] < 1 || v[3] < 1 || R % v[1] || R % v[3]) { if (!me) { fprintf(out, "<skip>\n"); fflush(out); } continue; }
+            if (!ctx) {
+                int pargc = 0; char **pargv = NULL;
+                ctx = parsec_init(threads, &pargc, &pargv);
+                if (!ctx) { if (!me) { fprintf(out, "<parsec_init failed>\n"); fflush(out); } continue; }
+            }
             parsec_matrix_block_cyclic_init(&a, PARSEC_MATRIX_DOUBLE, PARSEC_MATRIX_TILE, 0, 2, 2, 8, 8, 0, 0, 8, 8, v[1], R / v[1], 1, v[2], 0, 0);
             parsec_matrix_block_cyclic_init(&b, PARSEC_MATRIX_DOUBLE, PARSEC_MATRIX_TILE, 0, 2, 2, 8, 8, 0, 0, 8, 8, v[3], R / v[3], 1, v[4], 0, 0);
             if (!me) { fprintf(out, "%d\n", redistribute_pair_num_cols(&a.super, &b.super, v[5])); fflush(out); }
             parsec_tiled_matrix_destroy(&a.super); parsec_tiled_matrix_destroy(&b.super);
+        } else if (!strncmp(l, "upd ", 4) && k == 17) {
+            int okp = 1;
+            for (int i = 8; i < 14; i++) if (v[i] < 1 || v[i] > 8) okp = 0;          /* TL, BR, tile sizes */
+            if (v[6] < 0 || v[6] > 8 || v[7] < 0 || v[7] > 8 || v[14] < 0 || v[14] > 8 || v[15] < 0 || v[15] > 8) okp = 0;
+            if (v[2] < 0 || v[3] < v[2] || v[3] > v[2] + 5 || v[4] < 0 || v[5] < v[4] || v[5] > v[4] + 5) okp = 0;
+            if (!okp) { if (!me) { fprintf(out, "<skip>\n"); fflush(out); } continue; }
+            static double T[64 * 64], S[32 * 32];
+            for (int i = 0; i < 64 * 64; i++) T[i] = -1.0;
+            for (int j = 0; j < 32; j++) for (int i = 0; i < 32; i++) S[j * 32 + i] = v[16] ? (double)((i + 1) * 100 + j) : (double)(j * 32 + i);
+            CORE_redistribute_update(T, S, S, S, S, S, S, S, S, S, 0, v[8], v[9], v[10], v[11], v[2], v[3], v[4], v[5],
+                                     v[0], v[1], v[6], v[7], v[12], v[13], v[14], v[15], v[16] ? 0 : 1, 0, 32, 64);
+            if (!me) {
+                int any = 0;
+                for (int i = 0; i < 64; i++) for (int j = 0; j < 64; j++)
+                    if (T[j * 64 + i] != -1.0) { fprintf(out, "%s%d,%d=%ld", any ? " " : "", i, j, (long)T[j * 64 + i]); any = 1; }
+                fprintf(out, any ? "\n" : "-\n"); fflush(out);
+            }
         } else if (!me) { fprintf(out, "<bad case>\n"); fflush(out); }
     }
     if (ctx) parsec_fini(&ctx);
